@@ -165,7 +165,7 @@ def ev(case, rec):
 
 def gen_types(tier, seed):
     for ell in ('grs80', 'intl24'):
-        for kind in cfg.INTYPES[1:] + cfg.NUMFORMS:
+        for kind in cfg.INTYPES[1:] + cfg.NUMFORMS + ['exactforms']:
             yield {'ell': ell, 'kind': kind}
 
 
@@ -175,6 +175,23 @@ TYPE_PTS = [(-37.95103342, 144.42486789), (-37.65282114, 143.92649553), (0.3, -0
 def ev_types(case, rec):
     E = cfg.ell_obj(case['ell'])
     k = case['kind']
+    if k == 'exactforms':
+        # whole-degree end points in every exact numeric spelling (ints, numpy integers of every width, numpy floats)
+        ipts = [(-37.0, 144.0), (10.0, -170.0), (0.0, 0.0), (45.0, 90.0), (-12.0, 12.0), (89.0, -1.0), (1.0, 127.0)]
+        for p1 in ipts:
+            for p2 in ipts:
+                if p1 == p2:
+                    continue
+                st, base = rec.call(vincinv, p1[0], p1[1], p2[0], p2[1], E)
+                if st != 'ok':
+                    rec.fail('vincinv raised', site='geodesy:vincinv', observed=base, case=dict(case, p1=list(p1), p2=list(p2)))
+                    continue
+                rec.nontriv((case['ell'], k, p1, p2))
+                ok = cfg.scalar_forms_agree(rec, lambda a, b, c, d: vincinv(a, b, c, d, E), [p1[0], p1[1], p2[0], p2[1]], [0, 1, 2, 3], base,
+                                            'geodesy:vincinv', dict(case, p1=list(p1), p2=list(p2)), {'kind': k}, 'vincinv')
+                rec.outcome('forms-ok' if ok else 'forms-bad')
+        rec.sample(case)
+        return
     for p1 in TYPE_PTS:
         for p2 in TYPE_PTS:
             try:
